@@ -44,6 +44,13 @@ func VerifBitPack(width int, vals []uint8) []byte {
 	return bitpack.Pack(make([]byte, 0, bitpack.MaxSize), width, vals)
 }
 
+// VerifBitPackDirty calls bitpack.Pack with an empty destination whose spare
+// capacity holds garbage (Pack appends, so a caller may hand it a reused buffer).
+func VerifBitPackDirty(width int, vals []uint8, fill byte) []byte {
+	buf := bytes.Repeat([]byte{fill}, 2*bitpack.MaxSize)
+	return bitpack.Pack(buf[:0], width, vals)
+}
+
 // VerifBitUnpack calls bitpack.Unpack(width, data).
 func VerifBitUnpack(width int, data []byte) []uint8 {
 	return bitpack.Unpack(width, data)
